@@ -4,7 +4,7 @@ import re
 from lib_facts import place_str, fn_name
 from lib_flow import strip_refs, expr_calls, expr_str, variant_facts
 from roles import (roles, direct_sites, sites, callee_body, RE_NOTIFY, RE_CTX_WAKER, RE_WAKE, RE_DW_REGISTER, RE_ENQUEUE)
-from c01 import _site_label, d_loc, _flag_false_edge_blocks, _writes_true_before, _empty_variants, pending_assign_blocks
+from c01 import _site_label, d_loc, _flag_false_edge_blocks, _writes_true_before, _empty_variants, pending_assign_blocks, enq_guarded
 import c13
 
 EXPLANATION = (
@@ -64,6 +64,20 @@ def r14_1(ctx, R):
             for (h2, body2, nbb, tgt, lo, hi) in c13.range_budgets(ctx, d):
                 if d.dominates(tgt, bb):
                     licensed = "budget-exhausted"
+            if licensed is None:
+                # general budget cell (counting up or down, through a helper): the wake lies behind its exhausted edge
+                from lib_flow import all_arrivals_via_edge
+                polls_ = [pb for pb, _, _ in R.child_poll_sites(d)]
+                for head, body in d.loops().items():
+                    inside = [p_ for p_ in polls_ if p_ in body]
+                    if not inside:
+                        continue
+                    fb = c13.find_budget(ctx, R, d, fl, head, body, inside)
+                    try:
+                        if fb is not None and all_arrivals_via_edge(d, fl, bb, [(fb["sb"], fb["tgt"])]):
+                            licensed = "budget-exhausted"
+                    except RuntimeError:
+                        pass
             pops = R.pop_sites(d)
             for pbb, pt, pfn in pops:
                 dest = place_str(pt["dest"])
@@ -145,7 +159,7 @@ def r14_2(ctx, R):
         falseb = _flag_false_edge_blocks(ctx, R, b)
         for bb, t, fn in ns:
             n += 1
-            ok = any(b.dominates(x, bb) for x in falseb) and _writes_true_before(ctx, R, b, bb)
+            ok = all(enq_guarded(ctx, R, b, bb))
             ctx.ob("R14.2", b, "notify-behind-false->true@%s" % _site_label(b, bb), ok, b.loc(bb))
     ctx.floor("R14.2", "notify-sites", n, 1)
     for mk in R.mark_fns:
@@ -172,9 +186,66 @@ def r14_3(ctx, R):
     ctx.ob("R14.3", "<crate>", "no-Waker-clone", not clones, "", str(clones))
 
 
+def r14_4(ctx, R):
+    ctx.rule("R14.4", "no spurious queue entries: (a) every enqueue in the crate -- on the wake path and in the marking "
+                      "primitive -- happens only on the flag's false->true transition (a node is never linked twice); (b) a "
+                      "marking loop over 0..n is applied only to a slot map that is full (n = len()/capacity() of a map built "
+                      "by FromIterator) or with n = len() of the map it marks: vacant slots are never queued, so a poll does "
+                      "not burn its budget (and self-wake) on entries that have no child")
+    from c01 import enq_guarded
+    from roles import RE_ENQUEUE
+    n = 0
+    for b in ctx.facts.fn_bodies():
+        for bb, t, fn in direct_sites(b, RE_ENQUEUE):
+            n += 1
+            f_, w_ = enq_guarded(ctx, R, b, bb)
+            ctx.ob("R14.4", b, "enqueue-only-on-false->true@%s" % _site_label(b, bb), f_ and w_, b.loc(bb),
+                   "flag observed false before: %s; true written before: %s" % (f_, w_))
+    ctx.floor("R14.4", "enqueue-sites", n, 2)
+    sm = R.slot_enum[1]
+    m = 0
+    for b, ss in R.callers_of(R.mark_fn):
+        fl = ctx.flow(b)
+        for sbb, st, sfn in ss:
+            idx = fl.operand_expr(st["args"][-1])
+            rng = None
+            for c in expr_calls(idx):
+                if c[1] and "Range" in c[1] and c[1].endswith("::next"):
+                    it = strip_refs(c[2][0])
+                    while it[0] == "call" and (it[1] or "").endswith("into_iter"):
+                        it = strip_refs(it[2][0])
+                    if it[0] == "agg" and it[1].endswith("Range::Range"):
+                        rng = it
+            if rng is None:
+                continue
+            m += 1
+            hi = strip_refs(rng[2][1])
+            ok = False
+            det = expr_str(hi)
+            if hi[0] == "call" and re.search(r"::(len|capacity)$", hi[1] or "") and hi[2]:
+                src = strip_refs(hi[2][0])
+                built = [c for c in [src] + expr_calls(src) if c[0] == "call"]
+                from_iter = any(re.search(r"^<%s<.*> as core::iter::FromIterator<" % re.escape(sm), c[1] or "") for c in built)
+                empty_new = any((c[1] or "").startswith(sm + "::") and (c[1] or "").endswith("::new") for c in built)
+                if from_iter:
+                    ok = True
+                    det += " of a map built by FromIterator (full: C07 R7.6)"
+                elif empty_new and hi[1].endswith("::len"):
+                    ok = True
+                    det += " = len() of a fresh map (marks nothing)"
+                elif empty_new:
+                    det += " = capacity of an EMPTY map: every vacant slot is queued"
+            ctx.ob("R14.4", b, "mark-all-loop-only-over-occupied-slots@%s" % _site_label(b, sbb), ok, b.loc(sbb), det)
+    ctx.floor("R14.4", "mark-all-loops", m, 1)
+    import c07
+    c07.r7_6(ctx, R)
+    ctx.rule("R7.6", "see C07 R7.6 (shared): the slot map's FromIterator builds a full map")
+
+
 def run(ctx):
     R = roles(ctx)
     R.pop_fn, R.drain_fn, R.mark_fn
     r14_1(ctx, R)
     r14_2(ctx, R)
     r14_3(ctx, R)
+    r14_4(ctx, R)
